@@ -225,6 +225,12 @@ func runC13(c *CaseCtx) (res CaseResult) {
 		in.ZeroInput1 = zero + 1
 		// one case in five hands the inputs over as ValueSet.Args()
 		in.ViaSet = c.Idx%5 == 2
+		// one case in seven first supplies an overridden value per name
+		// (spelled in upper case): only the live values are inputs
+		in.StaleUpper = c.Idx%7 == 3
+		// one case in nine passes all type-only inputs through ONE
+		// Typed(nil, a, nil, b) option
+		in.GroupTyped = c.Idx%9 == 4
 		if onceTarget {
 			args := append([]am.Arg{}, in.ConvArgs...)
 			for i, p := range s.Target.In {
